@@ -279,6 +279,8 @@ def details_for(form):
         return {"foo": text_content(DETAIL_TEXT)}
     if form == "detr":
         return {"reason": text_content(REASON_IN_DETAILS), "foo": text_content(DETAIL_TEXT)}
+    if form == "det0":
+        return {}  # details supplied, just empty
     return None
 
 
@@ -313,6 +315,8 @@ def do_call(top, c, tests):
             m(t, EXC_INFO)
         elif form == "reason":
             m(t, REASON_DIRECT)
+        elif form == "reason0":
+            m(t, "")  # what unittest.skip("") / skipTest("") report: supplied, but falsy
         elif form == "none":
             m(t)
         else:
@@ -338,6 +342,10 @@ def classify_payload(p):
             txt = text_of(p)
         except Exception as ex:  # noqa
             return "details?", repr(ex)
+        if txt == {}:
+            return "det0", ""
+        if txt == {"reason": ""}:
+            return "reasondict0", ""
         if txt == {"foo": DETAIL_TEXT}:
             return "det", ""
         if txt == {"foo": DETAIL_TEXT, "reason": REASON_IN_DETAILS}:
@@ -358,6 +366,8 @@ def classify_payload(p):
     if isinstance(p, str):
         if p == REASON_DIRECT:
             return "reason", p
+        if p == "":
+            return "reason0", p  # the empty reason (given as such, or made from an empty details dict)
         return "synreason", p
     return "?%s" % type(p).__name__, ""
 
@@ -403,6 +413,8 @@ def project_bytest(node):
         cls, text = classify_payload(kw["details"])
         if cls in ("det", "detr", "det+reason"):
             cls = "details"
+        elif cls == "det0":
+            cls = "details0"
         out.append(
             ev(
                 "ontest",
